@@ -711,6 +711,13 @@ def exhaustive_prefix(ctx, max_ops, max_len, ops):
 # ------------------------------------------------------------------------------------------------
 
 def run(ctx):
+    try:
+        _run(ctx)
+    finally:
+        shutil.rmtree(ctx.workdir(), ignore_errors=True)
+
+
+def _run(ctx):
     rng = ctx.rng
     logging.getLogger("whatshap").setLevel(logging.CRITICAL)   # "Unsupported CIGAR operation" etc. are provoked on purpose
     if ctx.replay:
